@@ -26,7 +26,7 @@ TRUSTED = [
     "PandasDataFrameCache.update concat order / stable sort / keep='first', TableStorage.get missing-key handling",
     "extraction: ExtrOcamlBasic only; ocaml/driver.ml",
     "correspondence harness: lazy executor (a worker task runs when the caller blocks on future.result()) and a planned clock "
-    "replace FileCache.executor and file_cache.time; a share of the sequences runs on the real ThreadPoolExecutor",
+    "replace FileCache.executor and file_cache.time; a share of the sequences runs on the real ThreadPoolExecutor; file_cache.heapq is wrapped to record which item each heappop returns (an input of the model)",
 ]
 ASSUME = [
     "pickle / DataFrame.to_pickle followed by load returns an equal object (contents are abstract in the model; sampled by link 2 through canon())",
@@ -217,6 +217,27 @@ class PlannedClock:
         return _t.time()
 
 
+class HeapqProxy:
+    """replacement of `heapq` inside klongpy.db.file_cache: records which item every heappop returns.
+    (The code filters the list and pushes without heapify, so the list is not always a heap and heappop does
+    not always return the minimum; the popped names are an input of the model, see Model.v pop_choice.)"""
+    def __init__(self):
+        import heapq
+        self._h = heapq
+        self.popped = []
+
+    def heappush(self, h, x):
+        return self._h.heappush(h, x)
+
+    def heapify(self, h):
+        return self._h.heapify(h)
+
+    def heappop(self, h):
+        x = self._h.heappop(h)
+        self.popped.append(x[1])
+        return x
+
+
 def key_to_name(k):
     return [ord(c) for c in k.split("/")]
 
@@ -384,12 +405,16 @@ class KvsRunner:
         kvsm.serialize_obj = rec
         self._orig_time = fcm.time
         fcm.time = self.clock
+        self._orig_heapq = fcm.heapq
+        self.hq = HeapqProxy()
+        fcm.heapq = self.hq
         self.lens = [len(orig(v)) for _, v in self.vals]
         self.n = 0
 
     def close(self):
         self.kvsm.serialize_obj = self._orig_ser
         self.fcm.time = self._orig_time
+        self.fcm.heapq = self._orig_heapq
 
     def open_store(self, root, mx, real_exec):
         st = self.kvsm.KeyValueStorage(root, max_memory=(mx if mx else None))
@@ -416,6 +441,7 @@ class KvsRunner:
                 rec = {}
                 self.clock.plan([o.get("t", 0)])
                 self.last_ser = None
+                self.hq.popped = []
                 try:
                     if o["op"] == "set":
                         v = self.vals[o["val"]][1]
@@ -465,6 +491,7 @@ class KvsRunner:
                         b = self._orig_ser(self.vals[o["val"]][1])
                     rec["ser"] = [self.intern.id(b), len(b)]
                 fc = st.cache
+                rec["popped"] = [key_to_name(n) for n in self.hq.popped]
                 rec["state"] = snapshot(fc, root, self.intern, self.intern.id, self.intern.id)
                 rec["acct_ok"] = accounting_ok(fc)
                 recs.append(rec)
@@ -482,9 +509,9 @@ def model_request(seq, recs, catches, dirsize):
     for o, r in zip(seq["ops"], recs):
         if o["op"] == "set":
             i, l = r["ser"]
-            ops.append(["set", key_to_name(o["key"]), [i, l, l], o["t"]])
+            ops.append(["set", key_to_name(o["key"]), [i, l, l], o["t"], r["popped"]])
         elif o["op"] == "get":
-            ops.append(["get", key_to_name(o["key"]), o["t"]])
+            ops.append(["get", key_to_name(o["key"]), o["t"], r["popped"]])
         elif o["op"] == "unload":
             ops.append(["unload", key_to_name(o["key"])])
         else:
@@ -641,6 +668,9 @@ def check_dfcache(chk, rng, workdir, dirsize):
     clock = PlannedClock()
     orig_time = fcm.time
     fcm.time = clock
+    orig_heapq = fcm.heapq
+    hq = HeapqProxy()
+    fcm.heapq = hq
     nseq = 500 if chk.tier == "quick" else 4000
     keys = ["a", "b", "c", "e/f", "e/g"]
     bad_prop = bad_corr = None
@@ -661,16 +691,17 @@ def check_dfcache(chk, rng, workdir, dirsize):
             for i in range(rng.randint(3, 10 if chk.tier == "quick" else 20)):
                 t += rng.randint(0, 3)
                 clock.plan([t])
+                hq.popped = []
                 r = rng.random()
                 key = rng.choice(keys)
                 try:
                     if r < 0.45:
                         fi = rng.randrange(len(frames))
-                        ops.append(["set", key_to_name(key), [fi + 1, lens[fi], mems[fi]], t])
+                        ops.append(["set", key_to_name(key), [fi + 1, lens[fi], mems[fi]], t, []])
                         fc.update_file(key, ser[fi])
                         res = ["set"]
                     elif r < 0.8:
-                        ops.append(["get", key_to_name(key), t])
+                        ops.append(["get", key_to_name(key), t, []])
                         res = ["val", ckey(fc.get_file(key))]
                     elif r < 0.9:
                         ops.append(["unload", key_to_name(key)])
@@ -687,6 +718,8 @@ def check_dfcache(chk, rng, workdir, dirsize):
                     if isinstance(e, (KeyboardInterrupt, SystemExit)):
                         raise
                     res = ["err", exc_code(e)]
+                if ops[-1][0] in ("set", "get"):
+                    ops[-1][-1] = [key_to_name(n) for n in hq.popped]
                 st = snapshot(fc, root, None, ckey, lambda b: by_bytes.get(b, -1))
                 recs.append((res, st, accounting_ok(fc)))
             shutil.rmtree(root, ignore_errors=True)
@@ -694,6 +727,7 @@ def check_dfcache(chk, rng, workdir, dirsize):
             runs.append((mx, ops, recs))
     finally:
         fcm.time = orig_time
+        fcm.heapq = orig_heapq
     outs = chk.run_model(reqs)
     for (mx, ops, recs), mout in zip(runs, outs):
         chk.count("evaluations", len(recs))
@@ -912,7 +946,7 @@ def run(tier, replay=None):
                                       impl=[r["res"] for r in recs], model=str(m)[:300]))
             # known finding: in-memory size over the limit while the serialised length fits
             res3, (ln, mem, mx3), stuck = witness_mem_over_limit(workdir)
-            m3 = chk.run_model([sx(["kvs", 1, dirsize, mx3, [["set", [112], [1, ln, mem], 1], ["get", [112], 2], ["set", [112], [2, 600, 100], 3]]])])[0]
+            m3 = chk.run_model([sx(["kvs", 1, dirsize, mx3, [["set", [112], [1, ln, mem], 1, []], ["get", [112], 2, []], ["set", [112], [2, 600, 100], 3, []]]])])[0]
             model3 = [list(x[0]) for x in m3] == [["err", 6]] * 3
             impl3 = res3 == [["err", 6]] * 3 and stuck == [("p", True)]
             rep3 = {"kind": "tables", "what": "TableStorage(max_memory=%d); set of a table with pickle length %d and DataFrame memory %d; get; set" % (mx3, ln, mem),
